@@ -554,6 +554,24 @@ inline void apply_crate_op(World& w, S& s, Ctx& ctx, int mask)
             if (!c)
                 return;
             CrateM* t = s.below(4) == 0 ? nullptr : pick_crate();
+            {
+                // bias towards the interesting shapes: move a crate that has descendants, and aim at one of them now and then
+                uint64_t bias = s.below(6);
+                if (bias <= 2)
+                    for (auto i : lc)
+                        if (!w.subtree(w.crates[i].id).empty() && (bias == 0 || s.coin()))
+                        {
+                            c = &w.crates[i];
+                            break;
+                        }
+                auto sub = w.subtree(c->id);
+                if (bias == 0 && !sub.empty())
+                {
+                    auto it = sub.begin();
+                    std::advance(it, s.below(sub.size()));
+                    t = w.by_id(*it);
+                }
+            }
             int64_t tid = t ? t->id : 0;
             w.hist += " | set_parent(" + std::to_string(c->id) + " -> " + std::to_string(tid) + ")";
             ctx.label(std::string(w.v2 ? "2.x:" : "1.x:") + "set_parent");
